@@ -1229,3 +1229,25 @@ mod tests {
         }
     }
 }
+
+/// Verification hooks (feature `verif`).
+#[cfg(feature = "verif")]
+pub mod verif_hooks {
+    use super::*;
+
+    /// The identity check of the handshake on an already decoded payload: the peer a secured connection
+    /// would be reported for, if any.
+    pub fn parse_and_verify(
+        identity_key: Option<Vec<u8>>,
+        identity_sig: Option<Vec<u8>>,
+        dh_remote_pubkey: &[u8],
+    ) -> Option<PeerId> {
+        let payload = handshake_schema::NoiseHandshakePayload {
+            identity_key,
+            identity_sig,
+            ..Default::default()
+        };
+
+        parse_and_verify_peer_id(payload, dh_remote_pubkey).ok()
+    }
+}
